@@ -227,11 +227,72 @@ def _alpha(toks, mapping, is_header=False):
 _FLIP = {">": "<", ">=": "<="}
 
 
+_NEG = {"==": "!=", "!=": "==", "<": ">=", ">=": "<", ">": "<=", "<=": ">"}
+
+
+def _split_top(toks, word):
+    parts, cur, depth = [], [], 0
+    for t in toks:
+        if t in "([{":
+            depth += 1
+        elif t in ")]}":
+            depth -= 1
+        if t == word and depth == 0:
+            parts.append(cur)
+            cur = []
+        else:
+            cur.append(t)
+    parts.append(cur)
+    return parts
+
+
+def _simple_cmp(p):
+    """Index of the single top-level comparison operator of `p`, if `p` is one plain comparison."""
+    d, ops = 0, []
+    for i, t in enumerate(p):
+        if t in "([{":
+            d += 1
+        elif t in ")]}":
+            d -= 1
+        elif d == 0 and t in ("<", "<=", ">", ">=", "==", "!=", "and", "or", "not", "is", "in"):
+            ops.append((i, t))
+    return ops[0][0] if len(ops) == 1 and ops[0][1] in _NEG else None
+
+
+def _de_morgan(cond):
+    """`not (A and B …)` with plain comparisons  ->  `¬A or ¬B …`."""
+    if len(cond) > 3 and cond[0] == "not" and cond[1] == "(" and cond[-1] == ")":
+        inner = cond[2:-1]
+        depth = 0
+        for t in inner:                       # the parentheses must enclose the whole operand
+            if t in "([{":
+                depth += 1
+            elif t in ")]}":
+                depth -= 1
+                if depth < 0:
+                    return cond
+        parts = _split_top(inner, "and")
+        idx = [_simple_cmp(p) for p in parts]
+        if len(parts) > 1 and all(i is not None for i in idx):
+            out = []
+            for k, (p, i) in enumerate(zip(parts, idx)):
+                if k:
+                    out.append("or")
+                out += p[:i] + [_NEG[p[i]]] + p[i + 1:]
+            return out
+    return cond
+
+
 def _canon_condition(toks):
-    """`if|elif|while <cond> :` with flipped `>`/`>=` and sorted top-level `or` operands."""
+    """`if|elif|while <cond> :` with De Morgan applied, flipped `>`/`>=`, sorted top-level `or` operands and sorted
+    call-free `and` operands."""
     if toks[0] not in ("if", "elif", "while") or toks[-1] != ":":
         return toks
-    cond = toks[1:-1]
+    cond = _de_morgan(toks[1:-1])
+    ands = _split_top(cond, "and")
+    if len(ands) > 1 and "or" not in cond and not any("(" in p for p in ands):
+        ands.sort(key=_render)
+        cond = [t for k, p in enumerate(ands) for t in ((["and"] if k else []) + p)]
     parts, cur, depth = [], [], 0
     for t in cond:
         if t in "([{":
@@ -266,6 +327,20 @@ def _canon_condition(toks):
             out.append("or")
         out += p
     return out + [":"]
+
+
+def _canon_statement(toks):
+    """`a = b/2` -> `a = 0.5*b` (the same float32 value);  `A = A + B` -> `A += B`."""
+    if "=" in toks and toks[0] not in ("cdef", "if", "elif", "while", "for", "return", "raise"):
+        e = toks.index("=")
+        lhs, rhs = toks[:e], toks[e + 1:]
+        if len(rhs) == 3 and rhs[1] == "/" and rhs[2] == "2" and _is_name(rhs[0]):
+            return lhs + ["=", "0.5", "*", rhs[0]]
+        if len(rhs) == 3 and rhs[1] == "*" and rhs[2] == "0.5" and _is_name(rhs[0]):
+            return lhs + ["=", "0.5", "*", rhs[0]]
+        if rhs[:len(lhs)] == lhs and rhs[len(lhs):len(lhs) + 1] == ["+"] and "(" not in rhs[len(lhs) + 1:]:
+            return lhs + ["+="] + rhs[len(lhs) + 1:]
+    return toks
 
 
 def _negate(cond):
@@ -324,7 +399,7 @@ def _normal_form(lines, name, nth=0, private=False, roles=None, canon=True):
         out.append((i, t))
     if canon:
         out = _guard_form(out)
-        out = [(i, _canon_condition(t)) for i, t in out]
+        out = [(i, _canon_statement(_canon_condition(t))) for i, t in out]
     if not out:
         raise ValueError(f"function {name!r} has no body")
     return _render(header), [_render(t) for _, t in out]
@@ -403,6 +478,23 @@ def _lean_type(v):
     raise TypeError(type(v))
 
 
+def _fact(F, name, default, fn):
+    """Store a fact; when its statements are not found any more store a marker value instead of raising, so that the
+    run ends in the NAMED obligation (`C19_gen_…`) that compares this fact, not in a crashed extractor."""
+    try:
+        F[name] = fn()
+    except (ValueError, StopIteration, IndexError) as e:
+        F[name] = ([f"<not found: {e}>"] if isinstance(default, list) else default)
+
+
+def _break_block(body, start=0):
+    """Index of the `if …:` that guards the first `break` at or after `start`."""
+    k = next((q for q in range(max(start, 1), len(body)) if body[q] == "break" and body[q - 1].startswith("if")), None)
+    if k is None:
+        raise ValueError("no `if …: break`")
+    return k - 1
+
+
 def _role(lines, caller, pattern, what, nth=0):
     """Name of a private helper, found through the public function that calls it."""
     _, body = _normal_form(lines, caller, nth, canon=False)
@@ -425,53 +517,86 @@ def source_facts():
     # ---- upgma (operators / constants from the un-flipped text, statement lists from the normal form)
     _, raw = _normal_form(up, "upgma", canon=False)
     _, b = _normal_form(up, "upgma")
-    F["upgmaGuards"] = _guards([t for t in b if not t.startswith("cdef")], "upgma")
-    F["upgmaInit"] = [t for t in b if t.startswith("cdef") and ("np." in t or "astype" in t)]
-    F["upgmaScan"], _ = _between(b, r"v\d+=MAX_FLOAT", r"if v\d+<=?v\d+:", "upgma minimum search", last_offset=3)
-    F["upgmaMerge"], _ = _between(b, r"if v\d+==-1 or v\d+==-1:", r"v\d+\[v\d+\]=v\d+\[v\d+\]\+v\d+\[v\d+\]", "upgma merge step")
+    _fact(F, "upgmaGuards", [("?", "?")], lambda: _guards([t for t in b if not t.startswith("cdef")], "upgma"))
+    F["upgmaInit"] = [t for t in b if t.startswith("cdef") and ("np." in t or "astype" in t)] or ["<not found>"]
+    _fact(F, "upgmaScan", [], lambda: _between(b, r"v\d+=MAX_FLOAT", r"if v\d+<=?v\d+:", "upgma minimum search", last_offset=3)[0])
+    _fact(F, "upgmaMerge", [], lambda: b[_break_block(b):-1])
     F["upgmaReturn"] = b[-1]
-    m = next((re.fullmatch(r"v\d+=v\d+/(\d+)", t) for t in raw if re.fullmatch(r"v\d+=v\d+/(\d+)", t)), None)
-    if not m:
-        raise ValueError("upgma: `height = dist_min/<int>` not found")
-    F["upgmaHeightDivisor"] = int(m.group(1))
-    m = next((re.fullmatch(cmp_re, t) for t in raw if re.fullmatch(cmp_re, t)), None)
-    if not m:
-        raise ValueError("upgma: comparison of the minimum search not found")
-    F["upgmaScanCmp"] = m.group(1)
+
+    def height():
+        for t in raw:
+            m = re.fullmatch(r"v\d+=v\d+/(\d+)", t)
+            if m:
+                return (1, int(m.group(1)))
+            m = re.fullmatch(r"v\d+=(\d+)\.(\d+)\*v\d+", t) or re.fullmatch(r"v\d+=v\d+\*(\d+)\.(\d+)", t)
+            if m:
+                num, den = int(m.group(1) + m.group(2)), 10 ** len(m.group(2))
+                g = math.gcd(num, den)
+                return (num // g, den // g)
+        raise ValueError("upgma: `height = dist_min/<int>` (or `<decimal> * dist_min`) not found")
+    _fact(F, "upgmaHeightFactor", (0, 0), height)
+
+    def cmp_of(lines_):
+        m = next((re.fullmatch(cmp_re, t) for t in lines_ if re.fullmatch(cmp_re, t)), None)
+        if not m:
+            raise ValueError("comparison of the minimum search not found")
+        return m.group(1)
+    _fact(F, "upgmaScanCmp", "?", lambda: cmp_of(raw))
     # ---- neighbor_joining
     _, raw = _normal_form(nj, "neighbor_joining", canon=False)
     _, b = _normal_form(nj, "neighbor_joining")
-    F["njGuards"] = _guards([t for t in b if not t.startswith("cdef")], "neighbor_joining")
-    F["njInit"] = [t for t in b if t.startswith("cdef") and ("np." in t or "astype" in t or "len(" in t)]
-    w = next((k for k, t in enumerate(b) if t == "while True:"), None)
-    if w is None:
-        raise ValueError("nj: `while True:` not found")
-    F["njDivergence"], e = _between(b, r"for v\d+ in range\(.*\):", r"v\d+\[v\d+\]=v\d+", "nj divergence", start=w)
-    F["njCorrected"], e = _between(b, r"for v\d+ in range\(.*\):", r"v\d+\[v\d+,v\d+\]=\(v\d+-\d+\)\*.*", "nj corrected distances", start=e)
-    F["njScan"], e = _between(b, r"v\d+=MAX_FLOAT", r"if v\d+<=?v\d+:", "nj minimum search", start=e, last_offset=3)
-    F["njJoin"], e = _between(b, r"if v\d+==-1 or v\d+==-1:", r"return Tree\(v\d+\)", "nj join", start=e)
-    F["njUpdate"] = b[e:]
-    m = next((re.fullmatch(r"if v\d+(<=?|>=?)(\d+):", t) for t in raw if re.fullmatch(r"if v\d+(<=?|>=?)(\d+):", t)), None)
-    if not m:
-        raise ValueError("nj: `if n_rem_nodes > <int>` not found")
-    F["njJoinCmp"] = (m.group(1), int(m.group(2)))
-    m = re.search(r"=\(v\d+-(\d+)\)\*v\d+\[v\d+,v\d+\]", " ".join(raw))
-    if not m:
-        raise ValueError("nj: `(n_rem_nodes - <int>) * distances_v[i,j]` not found")
-    F["njCorrOffset"] = int(m.group(1))
-    halves = sorted(set(re.findall(r"v\d+=(\d+)\.(\d+)\*\(", " ".join(raw))))
-    if len(halves) != 1:
-        raise ValueError(f"nj: the factor of the half-sums is not unique: {halves}")
-    F["njHalf"] = (int(halves[0][0] + halves[0][1]), 10 ** len(halves[0][1]))
-    m = next((re.fullmatch(cmp_re, t) for t in raw if re.fullmatch(cmp_re, t)), None)
-    if not m:
-        raise ValueError("nj: comparison of the minimum search not found")
-    F["njScanCmp"] = m.group(1)
-    rawg = [re.fullmatch(r"if distances\.shape\[0\](<=?|>=?)(\d+):", t) for t in raw]
-    rawg = [g for g in rawg if g]
-    if len(rawg) != 1:
-        raise ValueError("nj: minimum size guard not found")
-    F["njMinRowsCmp"] = (rawg[0].group(1), int(rawg[0].group(2)))
+    _fact(F, "njGuards", [("?", "?")], lambda: _guards([t for t in b if not t.startswith("cdef")], "neighbor_joining"))
+    F["njInit"] = [t for t in b if t.startswith("cdef") and ("np." in t or "astype" in t or "len(" in t)] or ["<not found>"]
+    pos = {}
+
+    def cut(name, first, last, what, after, **kw):
+        def go():
+            seg, e = _between(b, first, last, what, start=pos.get(after, 0), **kw)
+            pos[name] = e
+            return seg
+        _fact(F, name, [], go)
+        pos.setdefault(name, pos.get(after, 0))
+    pos["while"] = next((k for k, t in enumerate(b) if t == "while True:"), 0)
+    cut("njDivergence", r"for v\d+ in range\(.*\):", r"v\d+\[v\d+\]=v\d+", "nj divergence", "while")
+    cut("njCorrected", r"for v\d+ in range\(.*\):", r"v\d+\[v\d+,v\d+\]=\(v\d+-\d+\)\*.*", "nj corrected distances", "njDivergence")
+    cut("njScan", r"v\d+=MAX_FLOAT", r"if v\d+<=?v\d+:", "nj minimum search", "njCorrected", last_offset=3)
+
+    def join():
+        a0 = _break_block(b, pos.get("njScan", 0))
+        e0 = next(k for k in range(a0, len(b)) if re.fullmatch(r"return Tree\(v\d+\)", b[k]))
+        pos["njJoin"] = e0 + 1
+        return b[a0:e0 + 1]
+    _fact(F, "njJoin", [], join)
+    F["njUpdate"] = b[pos["njJoin"]:] if "njJoin" in pos else ["<not found>"]
+
+    def join_cmp():
+        m = next((re.fullmatch(r"if v\d+(<=?|>=?)(\d+):", t) for t in raw if re.fullmatch(r"if v\d+(<=?|>=?)(\d+):", t)), None)
+        if not m:
+            raise ValueError("nj: `if n_rem_nodes > <int>` not found")
+        return (m.group(1), int(m.group(2)))
+    _fact(F, "njJoinCmp", ("?", 0), join_cmp)
+
+    def corr_offset():
+        m = re.search(r"=\(v\d+-(\d+)\)\*v\d+\[v\d+,v\d+\]", " ".join(raw))
+        if not m:
+            raise ValueError("nj: `(n_rem_nodes - <int>) * distances_v[i,j]` not found")
+        return int(m.group(1))
+    _fact(F, "njCorrOffset", 0, corr_offset)
+
+    def half():
+        hs = sorted(set(re.findall(r"v\d+=(\d+)\.(\d+)\*\(", " ".join(raw))))
+        if len(hs) != 1:
+            raise ValueError(f"nj: the factor of the half-sums is not unique: {hs}")
+        return (int(hs[0][0] + hs[0][1]), 10 ** len(hs[0][1]))
+    _fact(F, "njHalf", (0, 0), half)
+    _fact(F, "njScanCmp", "?", lambda: cmp_of(raw))
+
+    def min_rows():
+        g = [x for x in (re.fullmatch(r"if distances\.shape\[0\](<=?|>=?)(\d+):", t) for t in raw) if x]
+        if len(g) != 1:
+            raise ValueError("nj: minimum size guard not found")
+        return (g[0].group(1), int(g[0].group(2)))
+    _fact(F, "njMinRowsCmp", ("?", 0), min_rows)
     # ---- tree.pyx: private helpers by role (found through their public callers)
     roles = {
         _role(tr, "as_binary", r"=(_\w+)\(tree_or_node\.root\)", "_as_binary"): "HELPER_as_binary",
